@@ -13,7 +13,7 @@ open NexoVerif
 def ordsOf (w r ts tl : List AOp) : Option Ords :=
   match w, r, ts, tl with
   | [.load "sequence" o1, .store "sequence" o2, .fence o3, .call "tearable_store", .store "sequence" o4],
-    [.load "sequence" o5, .call "tearable_load", .fence o6, .load "sequence" o7],
+    [.load "sequence" o5, .call "guard_odd", .call "tearable_load", .fence o6, .load "sequence" o7, .call "guard_same"],
     [.store "secs" _, .store "nanos" _],
     [.load "secs" _, .load "nanos" _] =>
     some { wLoad := o1, wOdd := o2, wFence := o3, wEven := o4, rFirst := o5, rFence := o6, rSecond := o7 }
@@ -26,6 +26,44 @@ def extractedOrds? : Option Ords :=
 def relaxedOrds : Ords := ⟨.relaxed, .relaxed, .relaxed, .relaxed, .relaxed, .relaxed, .relaxed⟩
 
 def extractedOrds : Ords := extractedOrds?.getD relaxedOrds
+
+/-- Which of the two guards of `try_read` are present in the source (both are part of the model's reader
+program; their absence makes `extractedOrds?` fail and is explored only by the failing-history search). -/
+def extractedGuards : Bool × Bool :=
+  (Extracted.syncCellTryRead.contains (.call "guard_odd"), Extracted.syncCellTryRead.contains (.call "guard_same"))
+
+/-- orderings for the search even when the guards are missing -/
+def searchOrds : Ords :=
+  match Extracted.syncCellWrite, Extracted.syncCellTryRead.filter (fun a => match a with | .call "guard_odd" => false | .call "guard_same" => false | _ => true) with
+  | [.load "sequence" o1, .store "sequence" o2, .fence o3, .call "tearable_store", .store "sequence" o4],
+    [.load "sequence" o5, .call "tearable_load", .fence o6, .load "sequence" o7] =>
+    { wLoad := o1, wOdd := o2, wFence := o3, wEven := o4, rFirst := o5, rFence := o6, rSecond := o7 }
+  | _, _ => relaxedOrds
+
+/-- variant of `step` used only by the failing-history search: the reader without its early return on an odd
+sequence (`oddGuard = false`) or without the final equality test (`sameGuard = false`) -/
+def stepV (oddGuard sameGuard : Bool) (o : Ords) (l : Label) (s : St) : Option St :=
+  match l with
+  | .rLoadSeq1 i =>
+    if oddGuard then step o l s else
+    if s.rpc = .start ∧ s.rcur.seq ≤ i then
+      match s.seqM[i]? with
+      | some m =>
+        let cur := { s.rcur with seq := i }
+        some { s with rv := m.val, racq := s.racq.join m.view,
+                      rcur := if o.rFirst.isAcq then cur.join m.view else cur, rpc := .seqLoaded }
+      | none => none
+    else none
+  | .rLoadSeq2 i =>
+    if sameGuard then step o l s else
+    if s.rpc = .fenced ∧ s.rcur.seq ≤ i then
+      match s.seqM[i]? with
+      | some m =>
+        some { s with racq := s.racq.join m.view, rcur := { s.rcur with seq := i }, rpc := .done,
+                      result := some (some (s.ra, s.rb)), lastOk := s.ja }
+      | none => none
+    else none
+  | _ => step o l s
 
 def runLabels (o : Ords) (ls : List Label) (s : St) : Option St :=
   ls.foldl (fun acc l => acc.bind (step o l)) (some s)
@@ -57,13 +95,13 @@ def isTorn (s : St) : Bool :=
   | _ => false
 
 /-- depth-first search for an execution ending in a torn successful read -/
-def searchTorn (o : Ords) (maxWrites : Nat) : Nat → St → List Label → Option (List Label)
+def searchTorn (g : Bool × Bool) (o : Ords) (maxWrites : Nat) : Nat → St → List Label → Option (List Label)
   | 0, _, _ => none
   | fuel + 1, s, trace =>
     if isTorn s then some trace.reverse else
     (enabled s maxWrites).firstM fun l =>
-      match step o l s with
-      | some s' => searchTorn o maxWrites fuel s' (l :: trace)
+      match stepV g.1 g.2 o l s with
+      | some s' => searchTorn g o maxWrites fuel s' (l :: trace)
       | none => none
 
 end NexoVerif.SeqLock
